@@ -8,7 +8,7 @@ use rdp::model::link::{Link, Stream};
 use serde::{Deserialize, Serialize};
 
 pub const LEVEL: &str = "exploration";
-pub const RULE: &str = "case = (sequence of TPKT / fast-path frames, read-chunk schedule, entry point tpkt::Client::read or x224::Client::read). A chunking Read serves the concatenated frames in pieces of the scheduled sizes and counts the bytes it handed out; after every read the payload/kind/security flags must equal the reference deframer's next frame and the consumed-byte count must equal that frame's end offset; a sentinel frame always follows. Frames whose declared length is shorter than their header must be rejected. Sweep section = every TPKT length (all 65536 in thorough; all < 1400 plus strata in quick) and every fast-path length in both forms. Non-trivial = >= 2 frames with a schedule that splits at least one header, or a zero-payload / undersized frame; distinct by hash of the case.";
+pub const RULE: &str = "case = (sequence of TPKT / fast-path frames, read-chunk schedule, entry point tpkt::Client::read or x224::Client::read). A chunking Read serves the concatenated frames in pieces of the scheduled sizes and counts the bytes it handed out; after every read the payload/kind/security flags must equal the reference deframer's next frame and the consumed-byte count must equal that frame's end offset; a sentinel frame always follows. Frames whose declared length is shorter than their header must be rejected. Sweep section = every TPKT length (all 65536 in thorough; all < 1400 plus strata in quick) and every fast-path length in both forms. bursts: runs of 1..40 frames of one form followed by each minimal frame; long-streams: more than 2^32 bytes of frames through one client (cycling transport). Non-trivial = >= 2 frames with a schedule that splits at least one header, or a zero-payload / undersized frame; distinct by hash of the case.";
 
 #[derive(Serialize, Deserialize, Hash, Clone, Debug)]
 pub enum Frame {
@@ -283,7 +283,22 @@ pub fn decode(s: &mut Src) -> Case {
     let n = 1 + s.below(8);
     let x224 = s.chance(64);
     let big = s.chance(40);
-    let frames = (0..n).map(|i| frame(s, !(big && i == 0))).collect();
+    let mut frames: Vec<Frame> = (0..n).map(|i| frame(s, !(big && i == 0))).collect();
+    // bursts: a run of frames of one form (state that builds up over consecutive frames), then the generated ones
+    if s.chance(48) {
+        let k = 2 + s.below(24);
+        let template = match s.below(4) {
+            0 => Frame::Fast { first: 0, long: true, len: 3 + s.below(40) as u16 },
+            1 => Frame::Fast { first: 0x80, long: false, len: 2 + s.below(40) as u16 },
+            2 => Frame::Tpkt { len: 4 + s.below(40) as u16, reserved: 0 },
+            _ => Frame::Fast { first: 0, long: true, len: 3 },
+        };
+        let mut v = vec![template; k];
+        // followed by the smallest frames of each form
+        v.push(s.pick(&[Frame::Fast { first: 0, long: false, len: 2 }, Frame::Fast { first: 0, long: true, len: 3 }, Frame::Tpkt { len: 4, reserved: 0 }, Frame::Fast { first: 0x40, long: false, len: 3 }]));
+        v.extend(frames);
+        frames = v;
+    }
     let schedule = match s.below(6) {
         0 => vec![1],
         1 => vec![1 + s.below(7) as u16],
@@ -329,6 +344,154 @@ fn sweep(tier: Tier, part: usize, parts: usize) -> impl Iterator<Item = Case> {
     cases.into_iter().enumerate().filter(move |(i, _)| i % parts == part).map(|(_, c)| c)
 }
 
+/// every burst length 1..=40 of each frame form, followed by each minimal frame, whole and dribbled
+fn bursts() -> Vec<Case> {
+    let mut v = Vec::new();
+    let templates = [Frame::Fast { first: 0, long: true, len: 20 }, Frame::Fast { first: 0, long: true, len: 3 }, Frame::Fast { first: 0, long: false, len: 9 }, Frame::Fast { first: 0, long: false, len: 2 }, Frame::Tpkt { len: 30, reserved: 0 }, Frame::Tpkt { len: 4, reserved: 0 }];
+    let tails = [Frame::Fast { first: 0, long: false, len: 2 }, Frame::Fast { first: 0xC0, long: false, len: 2 }, Frame::Fast { first: 0, long: true, len: 3 }, Frame::Tpkt { len: 4, reserved: 0 }, Frame::Fast { first: 0, long: false, len: 3 }];
+    for (ti, t) in templates.iter().enumerate() {
+        for k in 1..=40usize {
+            for (ui, tail) in tails.iter().enumerate() {
+                let mut frames = vec![t.clone(); k];
+                frames.push(tail.clone());
+                frames.push(Frame::Fast { first: 0, long: false, len: 5 });
+                frames.push(tail.clone());
+                for (sch, x224) in [(vec![], false), (vec![1u16], false), (vec![3u16, 2], ui % 2 == 0)] {
+                    v.push(Case { frames: frames.clone(), schedule: sch, x224, fill: (ti * 1000 + k * 10 + ui) as u32 });
+                }
+            }
+        }
+    }
+    v
+}
+
+/// more than 2^32 bytes through ONE client: frames are synthesized on the fly by a cycling transport
+#[derive(Serialize, Deserialize, Hash, Clone, Debug)]
+pub struct LongCase {
+    /// declared TPKT lengths of the frames of the cycle
+    pub cycle: Vec<u16>,
+    pub x224: bool,
+    /// at most this many bytes per transport read (0 = unlimited)
+    pub chunk: u32,
+    /// total number of bytes to push through, in MiB
+    pub total_mib: u32,
+}
+
+struct CycleReader {
+    cycle: Vec<u8>,
+    pos: usize,
+    chunk: usize,
+    served: std::rc::Rc<std::cell::Cell<u64>>,
+}
+
+impl std::io::Read for CycleReader {
+    fn read(&mut self, buf: &mut [u8]) -> std::io::Result<usize> {
+        let mut n = buf.len();
+        if self.chunk > 0 {
+            n = n.min(self.chunk);
+        }
+        let mut done = 0;
+        while done < n {
+            let k = (n - done).min(self.cycle.len() - self.pos);
+            buf[done..done + k].copy_from_slice(&self.cycle[self.pos..self.pos + k]);
+            self.pos = (self.pos + k) % self.cycle.len();
+            done += k;
+        }
+        self.served.set(self.served.get() + n as u64);
+        Ok(n)
+    }
+}
+
+impl std::io::Write for CycleReader {
+    fn write(&mut self, b: &[u8]) -> std::io::Result<usize> {
+        Ok(b.len())
+    }
+    fn flush(&mut self) -> std::io::Result<()> {
+        Ok(())
+    }
+}
+
+pub fn run_long(c: &LongCase) -> Outcome {
+    let mut out = Outcome::new();
+    out.nontrivial(true);
+    let mut cycle = Vec::new();
+    let mut payloads: Vec<Vec<u8>> = Vec::new();
+    for (i, l) in c.cycle.iter().enumerate() {
+        let l = (*l).max(7) as usize;
+        cycle.extend_from_slice(&[3, 0, (l >> 8) as u8, l as u8]);
+        let mut p: Vec<u8> = (0..l - 4).map(|j| (j as u8).wrapping_mul(31).wrapping_add(i as u8)).collect();
+        p[0] = 2;
+        p[1] = 0xF0;
+        p[2] = 0x80;
+        cycle.extend_from_slice(&p);
+        payloads.push(if c.x224 { p[3..].to_vec() } else { p });
+    }
+    let served = std::rc::Rc::new(std::cell::Cell::new(0u64));
+    let reader = CycleReader { cycle, pos: 0, chunk: c.chunk as usize, served: served.clone() };
+    let link = rdp::model::link::Link::new(rdp::model::link::Stream::Raw(reader));
+    let t = tpkt::Client::new(link);
+    let target = c.total_mib as u64 * 1024 * 1024;
+    let x224 = c.x224;
+    let pl = payloads.clone();
+    let sv = served.clone();
+    let (r, _) = crate::util::call_plain(move || {
+        let mut consumed: u64 = 0;
+        let mut k = 0usize;
+        let check = |k: usize, got: &[u8]| -> Result<(), String> {
+            if got != &pl[k % pl.len()][..] {
+                return Err(format!("frame #{} (after {} MiB): payload of {} bytes differs from the {} bytes sent", k, sv.get() >> 20, got.len(), pl[k % pl.len()].len()));
+            }
+            Ok(())
+        };
+        if x224 {
+            let mut x = x224::Client::from_transport(t, x224::Protocols::ProtocolSSL);
+            while consumed < target {
+                match x.read() {
+                    Ok(tpkt::Payload::Raw(mut c)) => {
+                        let mut v = Vec::new();
+                        std::io::Read::read_to_end(&mut c, &mut v).unwrap();
+                        check(k, &v)?;
+                        consumed += v.len() as u64 + 7;
+                    }
+                    Ok(_) => return Err(format!("frame #{}: slow-path frame returned as fast-path", k)),
+                    Err(e) => return Err(format!("frame #{} (after {} MiB): valid frame rejected: {:?}", k, sv.get() >> 20, e)),
+                }
+                k += 1;
+            }
+        } else {
+            let mut t = t;
+            while consumed < target {
+                match t.read() {
+                    Ok(tpkt::Payload::Raw(mut c)) => {
+                        let mut v = Vec::new();
+                        std::io::Read::read_to_end(&mut c, &mut v).unwrap();
+                        check(k, &v)?;
+                        consumed += v.len() as u64 + 4;
+                    }
+                    Ok(_) => return Err(format!("frame #{}: slow-path frame returned as fast-path", k)),
+                    Err(e) => return Err(format!("frame #{} (after {} MiB): valid frame rejected: {:?}", k, sv.get() >> 20, e)),
+                }
+                k += 1;
+            }
+        }
+        if sv.get() != consumed {
+            return Err(format!("{} bytes taken from the transport for {} bytes of frames", sv.get(), consumed));
+        }
+        Ok(())
+    });
+    match r {
+        Res::Ok(Ok(())) => {}
+        Res::Ok(Err(e)) => {
+            out.fail("deframe:long-stream", e);
+        }
+        Res::Err(e) => {
+            out.fail("deframe:long-stream", e);
+        }
+        Res::Panic(p) => fail_panic(&mut out, "tpkt.read(long stream)", &p),
+    }
+    out
+}
+
 /// splits at every offset of every header for a fixed three-frame stream
 fn header_splits() -> Vec<Case> {
     let mut v = Vec::new();
@@ -364,6 +527,17 @@ pub fn check(rep: &Report) {
     let tier = rep.tier;
     rep.enumerate("length-sweep", true, move |p, n| sweep(tier, p, n), run);
     rep.list("header-splits", header_splits(), run);
+    rep.list("bursts", bursts(), run);
+    // > 2^32 bytes (and > 2^31) through one client
+    let mut long = vec![
+        LongCase { cycle: vec![65535, 65535, 9, 65535], x224: false, chunk: 0, total_mib: 4200 },
+        LongCase { cycle: vec![65535, 7, 4000], x224: true, chunk: 1460, total_mib: 4200 },
+    ];
+    if rep.tier == Tier::Thorough {
+        long.push(LongCase { cycle: vec![65535], x224: false, chunk: 65536, total_mib: 8400 });
+        long.push(LongCase { cycle: vec![12, 65535, 300], x224: true, chunk: 0, total_mib: 17000 });
+    }
+    rep.list("long-streams", long, run_long);
     rep.random("streams", rep.tier.n(1_500_000, 20_000_000), 64, decode, run);
     rep.require("streams", "splits-header", 1000);
     rep.require("streams", "zero-or-undersized", 1000);
